@@ -104,7 +104,7 @@ def regions(case):
         out.add('tls-framer-keyerror-in-multi-unit-mode')
     units_seen_by_framer = framer_units(front, hosted, flags)
     filter_on = multi and 0 not in units_seen_by_framer and 255 not in units_seen_by_framer
-    if front == 'sync-udp' and multi and flags.get('broadcast_enable') and filter_on and any(fr[0] == 0 for rd in case['reads'] for fr in rd):
+    if front == 'sync-udp' and multi and flags.get('broadcast_enable') and filter_on and any(fr[0] not in hosted for rd in case['reads'] for fr in rd):
         out.add('sync-udp-broadcast-filtered')
     for rd in case['reads']:
         if len(rd) >= 2:
